@@ -1331,6 +1331,9 @@ class Logger:
                                     raise
                             raise StopAsyncIteration
 
+                        def __anext__(self):
+                            return self.asend(None)
+
                         async def athrow(self, *args, **kwargs):
                             return await self._gen.athrow(*args, **kwargs)
 
